@@ -123,14 +123,22 @@ func Load(repoDir string, patterns []string, extraContractFiles []string, overla
 		e.Funcs[fn.String()] = fn
 	}
 	// contract files: in-package zz_verif_contracts.go (seen through CompiledGoFiles) + extras
-	for _, p := range pkgs {
+	// (also of the packages they import: their contracts are used at call sites)
+	var allPkgs []*packages.Package
+	packages.Visit(pkgs, nil, func(p *packages.Package) { allPkgs = append(allPkgs, p) })
+	sort.Slice(allPkgs, func(i, j int) bool { return allPkgs[i].PkgPath < allPkgs[j].PkgPath })
+	var cfErr error
+	for _, p := range allPkgs {
 		for _, f := range p.CompiledGoFiles {
 			if filepath.Base(f) == "zz_verif_contracts.go" {
-				if err := e.addContractFile(f, p, overlay); err != nil {
-					return nil, err
+				if err := e.addContractFile(f, p, overlay); err != nil && cfErr == nil {
+					cfErr = err
 				}
 			}
 		}
+	}
+	if cfErr != nil {
+		return nil, cfErr
 	}
 	for _, f := range extraContractFiles {
 		if err := e.addContractFile(f, nil, nil); err != nil {
@@ -192,10 +200,24 @@ func (e *Engine) addContractFile(path string, p *packages.Package, overlay map[s
 			e.Axioms = append(e.Axioms, AxiomRef{sp, p})
 			continue
 		}
-		if _, dup := e.Specs[sp.Name]; dup {
+		// Go-like specs are scoped to the package of their contract file; the plain name resolves only
+		// while it is unambiguous
+		sf := &SpecFn{Name: sp.Name, Spec: sp, Pkg: p}
+		scoped := sp.Name
+		if p != nil {
+			scoped = p.PkgPath + "::" + sp.Name
+		}
+		if _, dup := e.Specs[scoped]; dup {
 			return fmt.Errorf("%s:%d: duplicate spec %s", sp.File, sp.Line, sp.Name)
 		}
-		e.Specs[sp.Name] = &SpecFn{Name: sp.Name, Spec: sp, Pkg: p}
+		e.Specs[scoped] = sf
+		if p != nil {
+			if old, ok := e.Specs[sp.Name]; ok && old != nil && old.Pkg != p {
+				e.Specs[sp.Name] = nil // ambiguous across packages
+			} else if !ok {
+				e.Specs[sp.Name] = sf
+			}
+		}
 	}
 	for _, g := range cf.Ghosts {
 		gv := &GhostVar{Name: g.Name}
